@@ -23,8 +23,8 @@ ASSUMPTIONS = [
     "lists are used with the condition/action family of their own type; a regex list has one member (other uses are outside the domain)",
     "reference readers of the three vendors' policy / list syntaxes are in this module (namespaces per list kind)",
 ]
-FLOORS = {"quick": {"generator_runs": 2000, "policy_runs": 500, "refs_checked": 1000, "constructs_rejected": 100, "actions_segmented": 1000, "combined_operation_actions": 100},
-          "thorough": {"generator_runs": 100000, "policy_runs": 25000, "refs_checked": 50000, "constructs_rejected": 5000, "actions_segmented": 50000, "combined_operation_actions": 5000}}
+FLOORS = {"quick": {"generator_runs": 2000, "policy_runs": 500, "refs_checked": 1000, "constructs_rejected": 100, "actions_segmented": 1000, "combined_operation_actions": 100, "wildcard_only_as_path_filter_refs": 50},
+          "thorough": {"generator_runs": 100000, "policy_runs": 25000, "refs_checked": 50000, "constructs_rejected": 5000, "actions_segmented": 50000, "combined_operation_actions": 5000, "wildcard_only_as_path_filter_refs": 2500}}
 VENDORS = ["huawei", "arista", "cumulus"]
 MODELS = {"huawei": ("Huawei CE6870-48S6CQ-EI", "VRP V200R001C00SPC700"), "arista": ("Arista DCS-7368", "EOS 4.29.9.1M"),
           "cumulus": ("Mellanox SN3700-VS2RO", "Cumulus Linux 5.4.0")}
@@ -441,6 +441,9 @@ def check_case(seed, acc):
                 ["aspath", [["prepend", [65001]], ["delete", [65002]]]], ["aspath", [["prepend", [65001]], ["expand", [65002]]]],
                 ["aspath", [["prepend", [65001]], ["expand_last_as", [65002]]]], ["aspath", [["delete", [65001]], ["expand", [65002]]]],
                 ["comm", fam, [["set", cn(t)], ["add", cn(t)]]], ["comm", fam, [["set", cn(t)], ["remove", cn(t)]]], ["comm", fam, [["add", cn(t)], ["remove", cn(t)]]],
+                # single operations of the deprecated per-type attributes (the only way some back-ends name a list in an action)
+                ["comm", "extcommunity_rt", [["remove", cn(["RT"])]]], ["comm", "extcommunity_soo", [["remove", cn(["SOO"])]]],
+                ["comm", "extcommunity_rt", [["add", cn(["RT"])]]], ["comm", "large_community", [["remove", cn(["LARGE"])]]],
             ])
             st["acts"] = [x_ for x_ in st["acts"] if x_[0] != a[0] or (a[0] in ("comm",) and x_[1] != a[1])] + [a]
             acc.count("combined_operation_actions")
@@ -452,6 +455,15 @@ def check_case(seed, acc):
             st["conds"] = [x_ for x_ in st["conds"] if x_[0] != c[0]] + [c]
     else:
         program = gen_program(rng, ents)
+    # a wildcard-only as-path filter is a filter like any other: defined by the list generator when a statement refers to it
+    ents["asp"].append(dict(name="ASP_ANY", filters=[".*"]))
+    arng = random.Random(seed ^ 0xA5)
+    for pol in program:
+        for st in pol["stmts"]:
+            for c in st["conds"]:
+                if c[0] == "aspf" and arng.random() < 0.4:
+                    c[1] = "ASP_ANY"
+                    acc.count("wildcard_only_as_path_filter_refs")
     model, soft = MODELS[vendor]
     dev = H.FakeDevice(HardwareView(model, soft), pc=(vendor == "cumulus"))
     w = {"seed": seed, "vendor": vendor, "program": program, "entities": ents}
